@@ -32,7 +32,7 @@ EXPLANATION = (
 EXPLANATION += (' R-C12-4 additionally requires both aggregation paths (with and without additional index levels) to use the verified membership predicate and no library binning. R-C12-5: the two unbounded R segments, whose mid points are +-inf and whose pseudo mean stress is NaN, do not tie: the placing method treats mid == inf explicitly and brings the segments into a defined order (stable argsort / lexsort), and the walks sort the distances with a stable sort.')
 EXPLANATION += (' R-C12-6: a local helper whose result is NaN-patched (.fillna) at one call site is patched or guarded by an explicit infinity test of its argument at every call site (belief-contradiction rule for the indeterminate form (1+R)/(1-R) at R = +-inf).')
 EXPLANATION += (" R-C12-4 evaluates the membership mask of the re-binning helper (after inlining its locals) as a boolean function of the position of a range relative to the class edges, for &, |, ~, operator/np comparison functions and comparison expressions; an approximate comparison (np.isclose ...) in the mask is a violation. R-C12-7: no numeric parameter (M, M2, R_goal, amplitude, meanstress ...) of a mean-stress function is used as a truth value - 0 is admissible for each of them.")
-EXPLANATION += (' R-C12-8: whatever the histogram accessor combines by position with the rows of the caller\'s matrix (A.iloc[mask(B.values)], traced through nested helpers and common row selections) is aligned with the index of the matrix first (B = B.reindex(self._obj.index)); the transformed classes come back in the row order of the broadcast.')
+EXPLANATION += (' R-C12-8: whatever the histogram accessor combines by position with the rows of the caller\'s matrix (A.iloc[mask(B.values)], traced through nested helpers and common row selections) is aligned with the index of the matrix first (B = B.reindex(self._obj.index)); the transformed classes come back in the row order of the broadcast; before that re-indexing the levels of B are put into the order of the levels of the matrix (reorder_levels, unconditionally or for every MultiIndex), because reindex matches levels by position.')
 EXPLANATION += (' R-C12-9: class-level caches of the mean stress module are keyed by everything the cached object is built from (parameter-rooted access paths of value and key compared), and no accessor memoises across calls (memo rule).')
 ASSUMPTIONS = ["pandas IntervalIndex.get_indexer_for maps interval values to their positions",
                "1 - R_goal + M (1 + R_goal) != 0 for admissible slopes"]
@@ -127,7 +127,7 @@ def positional_pairings(fn_node):
     return out
 
 
-def _r8(ctx):
+def _r8(ctx, rule_id="R-C12-8"):
     """R-C12-8: the histogram accessor transforms the classes of the matrix and then sums the cycles of the classes that fall into
     each result class.  Transformed ranges and cycle counts are combined BY POSITION (`counts.iloc[mask(ranges.values)]`), and
     the transformed ranges come back in the row order of the broadcast (grouped by the first level), not in the row order of the
@@ -135,7 +135,7 @@ def _r8(ctx):
     first positional use; otherwise the result depends on the order of the rows of the matrix (counts are conserved, but
     end up in other classes)."""
     prog = ctx.prog
-    ctx.rule("R-C12-8", floor=1, what="values combined by position with the rows of the matrix are aligned with its index first")
+    ctx.rule(rule_id, floor=1, what="values combined by position with the rows of the matrix are aligned with its index first")
     ex = ast.parse("def f(self, r):\n    def h(iv, r, o):\n        return o.iloc[(r.values > iv.left)].sum()\n"
                    "    return [h(iv, r, self._obj) for iv in self._b]\n").body[0]
     if [(a, b) for _, a, b in positional_pairings(ex)] != [("self._obj", "r")]:
@@ -178,6 +178,33 @@ def _r8(ctx):
             if aligned is not None:
                 ctx.holds(fi, aligned, "%s: %s is re-indexed with %s.index before it is combined with its rows by position" %
                           (name, foreign, own))
+                # re-indexing one MultiIndex by another matches the levels BY POSITION: the levels of the broadcast result
+                # (shared levels first) have to be brought into the order of the matrix's levels first, unconditionally or under
+                # the one test "is a MultiIndex"
+                reordered = None
+                for st in fi.node.body:
+                    if st is aligned:
+                        break
+                    cands = [st]
+                    if isinstance(st, ast.If) and not st.orelse and isinstance(st.test, ast.Call) and call_name(st.test) == "isinstance" and \
+                            len(st.test.args) == 2 and norm_text(st.test.args[0]) == foreign + ".index" and "MultiIndex" in norm_text(st.test.args[1]):
+                        cands = st.body
+                    elif isinstance(st, ast.If):
+                        continue
+                    for c_ in cands:
+                        if isinstance(c_, ast.Assign) and len(c_.targets) == 1 and isinstance(c_.targets[0], ast.Name) and \
+                                c_.targets[0].id == foreign and isinstance(c_.value, ast.Call) and isinstance(c_.value.func, ast.Attribute) and \
+                                c_.value.func.attr == "reorder_levels" and c_.value.args and \
+                                norm_text(c_.value.args[0]) in (own + ".index.names", "list(%s.index.names)" % own):
+                            reordered = c_
+                if reordered is not None:
+                    ctx.holds(fi, reordered, "%s: the levels of %s are put into the order of %s.index.names before the re-indexing" % (name, foreign, own))
+                else:
+                    ctx.violated(fi, aligned, "%s: %s is re-indexed with %s.index without its levels being put into the order of %s.index.names "
+                                 "first (unconditionally, or for every MultiIndex): reindex matches the levels of two MultiIndexes by "
+                                 "position, and the broadcast returns the shared levels first - for a matrix whose extra level is not "
+                                 "leading nothing matches and all transformed ranges become NaN" % (name, foreign, own, own),
+                                 text="reindex without reorder_levels in %s" % name)
             else:
                 ctx.violated(fi, sub, "%s: %s pairs the rows of %s with the values of %s by position, but %s (the transformed "
                              "classes, in the row order of the broadcast) is never aligned with %s.index: for a matrix whose rows "
